@@ -21,12 +21,167 @@ def _stream_aliases(fi, field="self._file"):
     return out
 
 
+def _segment_verifiers(ctx):
+    """functions that seek a stream to <parameter>.position and may raise (discovered by role, wherever they live; what
+    they compare is checked by the rule): {qual: (FuncInfo, parameter, seek call, stream text)}"""
+    from .sym import Sym
+    prog = ctx.prog
+    out = {}
+    for q, f in sorted(prog.functions.items()):
+        if not q.startswith("reader."):
+            continue
+        if not any(isinstance(k, ast.Raise) for k in walk_body(f.node)):
+            continue
+        sy = None
+        for c in walk_body(f.node):
+            if isinstance(c, ast.Call) and isinstance(c.func, ast.Attribute) and c.func.attr == "seek" and c.args:
+                sy = sy or Sym(prog, f, f.cls)
+                env, _g = sy.env_at(c)
+                tgt = sy.expr(c.args[0], env)
+                if tgt and tgt[0] == "attr" and tgt[1][0] == "param" and tgt[2] == "position":
+                    out[q] = (f, tgt[1][1], c, dotted(c.func.value))
+    return out
+
+
+def _ctor_fields(ci):
+    """{parameter position (without self): field} for `self.f = parameter` in __init__"""
+    init = ci.methods.get("__init__") if ci else None
+    out = {}
+    if init:
+        for n in walk_body(init.node):
+            if isinstance(n, ast.Assign) and isinstance(n.value, ast.Name) and n.value.id in init.params[1:]:
+                for t in n.targets:
+                    if isinstance(t, ast.Attribute) and dotted(t.value) == "self":
+                        out[init.params.index(n.value.id) - 1] = (t.attr, n.value.id)
+    return out
+
+
+class _Verified(object):
+    """which names hold a segment whose start has been verified: by a dominating verifier call in the same iteration, or
+    because the loop draws them from a generator that verifies each item before yielding it (shapes: 'v' | ('tuple', [..])
+    | ('obj', {field: shape}))"""
+
+    def __init__(self, ctx, verifiers):
+        from .region import call_targets
+        self.ctx, self.prog, self.V = ctx, ctx.prog, set(verifiers)
+        self.call_targets = call_targets
+        self.gen_shapes = {}
+        for _round in range(3):
+            for q, f in sorted(self.prog.functions.items()):
+                if q.startswith("reader.") and q not in self.V and any(isinstance(y, ast.Yield) for y in walk_body(f.node)):
+                    sh = self._yield_shape(f)
+                    if sh is not None:
+                        self.gen_shapes[q] = sh
+
+    def chk(self, fi, cfg, seg):
+        from .region import nodes_reaching
+        verify = set(nodes_reaching(self.ctx, fi, cfg, self.V))
+        return lambda x: x in verify and any(seg in [dotted(a) for a in list(y.args) + [k.value for k in y.keywords]] for y in node_calls(x))
+
+    def dominated(self, fi, cfg, node, seg):
+        """node is reached only through a verification of seg in the same iteration of the loop that binds seg"""
+        chk = self.chk(fi, cfg, seg)
+        root = seg.split(".")[0]
+        heads = cfg.where(lambda x: x.kind == "for" and root in _names(x.ast.target))
+        starts = []
+        for h in heads:
+            if seg in self.bound_verified(fi, h.ast):
+                continue
+            starts += [m for m, k in h.succ if k == "loop"]
+        if not heads:
+            starts = [cfg.entry]
+        starts = [m for m in starts if not chk(m)]
+        r = cfg.reach(starts, avoid=chk, follow_exc=False) if starts else set()
+        return not (node in r and not chk(node))
+
+    def _iter_shape(self, fi, e, depth=0):
+        if depth > 4:
+            return None
+        if isinstance(e, ast.Name):
+            defs = [n for n in walk_body(fi.node) if isinstance(n, ast.Assign) and any(isinstance(t, ast.Name) and t.id == e.id for t in n.targets)]
+            if len(defs) == 1:
+                return self._iter_shape(fi, defs[0].value, depth + 1)
+            return None
+        if isinstance(e, ast.Call):
+            if call_name(e) == "enumerate" and e.args:
+                inner = self._iter_shape(fi, e.args[0], depth + 1)
+                return ("tuple", [None, inner]) if inner is not None else None
+            if call_name(e) in ("iter", "list", "tuple") and e.args:
+                return self._iter_shape(fi, e.args[0], depth + 1)
+            ts = self.call_targets(self.ctx, fi, e)
+            shapes = [self.gen_shapes.get(t) for t in ts]
+            if shapes and all(x is not None and x == shapes[0] for x in shapes):
+                return shapes[0]
+        return None
+
+    def bound_verified(self, fi, for_node):
+        out = set()
+
+        def bind(t, sh):
+            if sh is None:
+                return
+            if sh == "v":
+                if dotted(t):
+                    out.add(dotted(t))
+            elif sh[0] == "tuple" and isinstance(t, (ast.Tuple, ast.List)) and len(t.elts) == len(sh[1]):
+                for a, b in zip(t.elts, sh[1]):
+                    bind(a, b)
+            elif sh[0] == "obj" and dotted(t):
+                for fld, sub in sh[1].items():
+                    if sub == "v":
+                        out.add(dotted(t) + "." + fld)
+        bind(for_node.target, self._iter_shape(fi, for_node.iter))
+        return out
+
+    def _yield_shape(self, f):
+        cfg = self.ctx.cfg(f)
+        shapes = []
+        for y in walk_body(f.node):
+            if not isinstance(y, ast.Yield):
+                continue
+            nodes = cfg.where(lambda x: any(z is y for z in ast.walk(x.ast)) if getattr(x, "ast", None) is not None else False)
+
+            def shape(e):
+                if isinstance(e, ast.Name):
+                    return "v" if nodes and all(self.dominated(f, cfg, nd, e.id) for nd in nodes) and self._some_check(f, cfg, e.id) else None
+                if isinstance(e, ast.Tuple):
+                    subs = [shape(x) for x in e.elts]
+                    return ("tuple", subs) if any(x is not None for x in subs) else None
+                if isinstance(e, ast.Call):
+                    ci = self.prog.resolve_class(f.module, e.func)
+                    if ci is not None:
+                        flds = {}
+                        cf = _ctor_fields(ci)
+                        for pos, a in enumerate(e.args):
+                            if pos in cf and shape(a) == "v":
+                                flds[cf[pos][0]] = "v"
+                        for k in e.keywords:
+                            for pos, (fld, pname) in cf.items():
+                                if k.arg == pname and shape(k.value) == "v":
+                                    flds[fld] = "v"
+                        return ("obj", flds) if flds else None
+                return None
+            shapes.append(shape(y.value) if y.value is not None else None)
+        if shapes and all(x is not None and x == shapes[0] for x in shapes):
+            return shapes[0]
+        return None
+
+    def _some_check(self, f, cfg, seg):
+        chk = self.chk(f, cfg, seg)
+        root = seg.split(".")[0]
+        heads = cfg.where(lambda x: x.kind == "for" and root in _names(x.ast.target))
+        return bool(cfg.where(chk)) or any(seg in self.bound_verified(f, h.ast) for h in heads)
+
+
 @rule("MP2", "every segment data read is preceded, in the same iteration, by the segment start (tag) check", floor=4)
 def mp2(ctx, R):
     from .sym import Sym, show, alpha
-    from .region import nodes_reaching
     prog = ctx.prog
     cls = prog.cls("reader.TdmsReader")
+    verifiers = _segment_verifiers(ctx)
+    if not verifiers:
+        raise AnchorMissing("a function that seeks to <segment>.position and raises when what it finds there is not a segment start")
+    ver = _Verified(ctx, verifiers)
     n = 0
     for name, fi in sorted(cls.methods.items()):
         cfg = None
@@ -38,26 +193,18 @@ def mp2(ctx, R):
                 seg = dotted(c.func.value)
                 cfg = cfg or ctx.cfg(fi)
                 cn = cfg.where(lambda x: any(y is c for y in node_calls(x)))
-                verify = nodes_reaching(ctx, fi, cfg, {"reader.TdmsReader._verify_segment_start"})
-                chk = lambda x, seg=seg: x in verify and any(seg in [dotted(a) for a in y.args] for y in node_calls(x))
-                ok = True
-                for node in cn:
-                    heads = cfg.where(lambda x: x.kind == "for" and seg in _names(x.ast.target))
-                    starts = [m for h in heads for m, k in h.succ if k == "loop"] or [cfg.entry]
-                    starts = [m for m in starts if not chk(m)]
-                    r = cfg.reach(starts, avoid=chk, follow_exc=False) if starts else set()
-                    if node in r and not chk(node):
-                        ok = False
+                ok = all(ver.dominated(fi, cfg, node, seg) for node in cn)
                 R.check(ok, "reader.TdmsReader.%s::%s.%s" % (name, seg, c.func.attr), fi.where(c),
                         "dominated by the segment start check of %s in the same iteration" % seg,
                         "data of a segment is read without first checking that the data file has a TDSm tag at the segment's position: a "
                         "stale or mismatching index file would be read as data")
     if n < 3:
         raise AnchorMissing("segment data reads in reader.TdmsReader (found %d)" % n)
-    vs = prog.func("reader.TdmsReader._verify_segment_start")
+    vq = sorted(verifiers)[0]
+    vs, segp, seek0, stream = verifiers[vq]
     sy = Sym(prog, vs, vs.cls)
-    seg = ("param", vs.params[1])
-    al = _stream_aliases(vs)
+    seg = ("param", segp)
+    al = _stream_aliases(vs, stream)
     seeks = [c for c in walk_body(vs.node) if isinstance(c, ast.Call) and isinstance(c.func, ast.Attribute) and c.func.attr == "seek" and dotted(c.func.value) in al]
     ok = False
     if seeks:
@@ -65,7 +212,7 @@ def mp2(ctx, R):
         tgt = sy.expr(seeks[0].args[0], env) if seeks[0].args else None
         whence_ok = len(seeks[0].args) == 1 or (len(seeks[0].args) == 2 and (dotted(seeks[0].args[1]) == "os.SEEK_SET" or prog.try_fold(seeks[0].args[1]) == 0))
         ok = tgt == ("attr", seg, "position") and whence_ok
-    R.check(ok, "reader.TdmsReader._verify_segment_start::seek", vs.where(), "absolute seek of the data stream to segment.position",
+    R.check(ok, "%s::seek" % vq, vs.where(), "absolute seek of the data stream to segment.position",
             "the check does not seek the data file to the segment's position")
     reads = [c for c in walk_body(vs.node) if isinstance(c, ast.Call) and isinstance(c.func, ast.Attribute) and c.func.attr == "read" and dotted(c.func.value) in al]
     nbytes = None
@@ -76,7 +223,7 @@ def mp2(ctx, R):
             nbytes = v[1]
         elif v and v[0] == "len" and v[1][0] == "const" and isinstance(v[1][1], bytes):
             nbytes = len(v[1][1])
-    R.check(len(reads) == 1 and nbytes == 4, "reader.TdmsReader._verify_segment_start::reads the 4-byte tag", vs.where(), "one 4-byte read per segment touched",
+    R.check(len(reads) == 1 and nbytes == 4, "%s::reads the 4-byte tag" % vq, vs.where(), "one 4-byte read per segment touched",
             "the segment start check reads %s bytes in %d read(s)" % (nbytes, len(reads)))
     # the comparison with b'TDSm' decides between returning and raising
     cfg = ctx.cfg(vs)
@@ -94,7 +241,7 @@ def mp2(ctx, R):
             r2 = cfg.reach(match, follow_exc=False)
             returns = cfg.exit in r2 or any(m is cfg.exit for m in match)
             good = raises_only and returns
-    R.check(good, "reader.TdmsReader._verify_segment_start::tag", vs.where(), "raises unless the 4 bytes are b'TDSm'",
+    R.check(good, "%s::tag" % vq, vs.where(), "raises unless the 4 bytes are b'TDSm'",
             "the data-file tag check changed: no comparison of the bytes read with b'TDSm' that raises on mismatch and returns on match")
 
 
